@@ -57,7 +57,9 @@ type uciSim struct {
 	lastCmd    string
 	frugal     bool // the running search cannot end by itself: do not burn evaluations on it
 	onRelease  func(tk *Task)
-	drainedAt  int // last step at which the output was read until empty
+	drainedAt  int            // last step at which the output was read until empty
+	loopMark   int            // work counter when the command loop was last seen at a park point or in its select
+	roleW      map[string]int // scheduling bias of this run: a starved role is picked rarely ("slow task" fault)
 	delivered  []string
 }
 
@@ -68,6 +70,16 @@ func newUCISim(k *Kernel, t *tape.Tape, res *core.RunResult, w Wiring, opts engi
 	s.in = make(chan string)
 	s.start = time.Now()
 	s.drv, s.out = uci.NewDriver(s.ctx, s.b.E, s.in, s.b.UCIOpt...)
+	// swarm over scheduling policies: in some runs one role is starved (released rarely while others can run)
+	s.roleW = map[string]int{}
+	for _, r := range []string{"loop", "search", "fwd", "mt", "hard"} {
+		s.roleW[r] = 20
+	}
+	if t.Chance(1, 3) {
+		starved := []string{"mt", "hard", "fwd", "search", "loop"}[t.Choose(5)]
+		s.roleW[starved] = 1
+		res.Fault("slow-task")
+	}
 	return s
 }
 
@@ -82,10 +94,14 @@ func (s *uciSim) sync() {
 			break
 		}
 	}
+	if s.loop == lsSelecting || s.loop == lsExited {
+		s.loopMark = s.k.Work()
+	}
 	for _, tk := range s.k.Parked() {
 		if tk.Role != "loop" {
 			continue
 		}
+		s.loopMark = s.k.Work()
 		switch tk.Point {
 		case "loop.idle":
 			s.loop = lsIdleParked
@@ -172,13 +188,10 @@ func (s *uciSim) closeInput() {
 	}
 }
 
-// releasable tells whether the Engine.mu rule allows letting this task run now.
+// releasable: a task parked in front of Engine.mu may go on only while the lock is free.
 func (s *uciSim) releasable(tk *Task) bool {
-	switch tk.Point {
-	case "loop.recv":
-		return s.mtInFlight == ""
-	case "timer.movetime":
-		return !s.loopInCmd && s.mtInFlight == ""
+	if tk.Point == "engine.lock" {
+		return !s.k.LockHeld()
 	}
 	return true
 }
@@ -195,8 +208,13 @@ func (s *uciSim) release(tk *Task, credit int) {
 	case "timer.movetime":
 		s.mtInFlight = tk.Name
 	}
+	// mostly a task runs through its Engine calls undisturbed; sometimes it must stop in front of each lock
+	lockPass := 1 << 30
+	if tk.Role != "search" && s.t.Chance(1, 6) {
+		lockPass = s.t.Choose(3)
+	}
 	s.res.Tracef("[%d] run %s@%s +%d", s.steps, tk.Name, tk.Point, credit)
-	s.k.Release(tk, credit)
+	s.k.ReleaseWith(tk, credit, lockPass)
 	s.quiet = 0
 }
 
@@ -264,7 +282,7 @@ func (s *uciSim) stepRandom(gui func() string, wDeliver, wClock int) {
 	}
 	switch s.t.Weighted(w) {
 	case 0:
-		tk := rel[s.t.Choose(len(rel))]
+		tk := s.pick(rel)
 		cr := 0
 		if tk.Role == "search" {
 			cr = s.drawCredit()
@@ -279,7 +297,7 @@ func (s *uciSim) stepRandom(gui func() string, wDeliver, wClock int) {
 			}
 		} else if len(rel) > 0 {
 			// the GUI has nothing to say right now: let something run instead
-			tk := rel[s.t.Choose(len(rel))]
+			tk := s.pick(rel)
 			cr := 0
 			if tk.Role == "search" {
 				cr = s.drawCredit()
@@ -420,3 +438,21 @@ func randomLine(t *tape.Tape, g *rules.Game, n, pReverse int) {
 }
 
 func durMs(ms int) time.Duration { return time.Duration(ms) * time.Millisecond }
+
+// pick chooses the task to release, weighted by this run's scheduling bias.
+func (s *uciSim) pick(rel []*Task) *Task {
+	w := make([]int, len(rel))
+	for i, tk := range rel {
+		w[i] = s.roleW[tk.Role]
+		if w[i] == 0 {
+			w[i] = 20
+		}
+	}
+	return rel[s.t.Weighted(w)]
+}
+
+// blockedWork: evaluations spent by searches since the command loop was last seen at a park point or
+// in its select. The loop only ever waits for a search to finish its first iteration or to unwind
+// after a halt; tens of thousands of evaluations with the loop stuck mean it waits for something
+// that is not coming (a search nobody controls any more).
+func (s *uciSim) blockedWork() int { return s.k.Work() - s.loopMark }
